@@ -316,7 +316,7 @@ func (g *Gen) jval(depth int) *Sexp {
 	case 6:
 		return L(A("b"), A(g.r.Pick("0", "1")))
 	case 7:
-		return L(A("n"), A(hxs(g.r.Pick("0", "12", "-1.5e300", "123456789012345678901234567890", "0.1"))))
+		return L(A("n"), A(hxs(g.r.Pick("0", "12", "-1.5e300", "123456789012345678901234567890", "0.1", "1e400", "-1e999", "-2E+308", "1e-400", "-0", "1E5", "0.000", "9007199254740993", "18446744073709551616"))))
 	case 8, 9:
 		return g.jarr(depth)
 	}
